@@ -49,6 +49,7 @@ func init() {
 func runC07(c *Ctx) {
 	w := c.W
 	c07Extras(c)
+	c.DeadObligations(c.W.FuncsOfPkg("z/x509"), "package x509")
 	bc := w.Fn(fnBuildChains)
 	if bc == nil {
 		c.Undecided("R-CUT", fnBuildChains, "anchor", "-", "function not found")
